@@ -58,6 +58,9 @@ pub const FIXED: &[Fixed] = &[
         src: "lea r6 lp\nlp jmp r6\nafter halt\n" },
     Fixed { name: "break-directive", stack: true, origin: 0x3000, bps: [2, 3, 5], input: b"", breaks: &[1, 5],
         src: "and r0 r0 #0\n.break\nadd r0 r0 #2\nlp add r1 r1 #1\nadd r0 r0 #-1\nbrp lp\n.break\ncall f\nhalt\nf ret\n" },
+    // a `.break` written before the `.orig` line marks the first statement, wherever the origin puts it
+    Fixed { name: "break-before-orig", stack: false, origin: 0x5000, bps: [1, 3, 4], input: b"", breaks: &[0, 2],
+        src: ".break\n.orig x5000\nand r1 r1 #0\nlp add r1 r1 #1\n.break\nadd r2 r1 #-3\nbrn lp\nhalt\n" },
 ];
 
 pub fn alphabet(origin: u16, bps: &[u16; 3]) -> Vec<Cmd> {
